@@ -47,6 +47,7 @@ pub fn probes(_tier: &str) -> Vec<String> {
     "probe.endpoint_prefix.eJy",
     "probe.endpoint_prefix.other",
     "probe.foreign_service_same_fragment",
+    "probe.alias_service_same_did_and_fragment",
   ]
   .iter()
   .map(|s| (*s).to_owned())
@@ -446,8 +447,119 @@ pub fn run(params: &Params) {
       }
     }
   }
+  // ---- two services whose ids share DID and fragment and differ in the path (a document assembled elsewhere) ----
+  if ctx::choose(4) == 0 {
+    alias_scenario(&issuer_core(&issuer.doc), &services[0], &mut next_seq);
+  }
   if nontrivial {
     ctx::mark_nontrivial();
+  }
+}
+
+/// Every service of `doc` with its decoded bitmap, selected by the harness by exact id (no library query).
+fn bitmaps_by_exact_id(doc: &CoreDocument) -> Vec<(String, Option<RevocationBitmap>)> {
+  doc
+    .service()
+    .iter()
+    .map(|s| (s.id().to_string(), RevocationBitmap::try_from(s).ok()))
+    .collect()
+}
+
+/// `did/archive#rev0` (prefilled, listed first) next to `did#rev0`. Which of the two an id designates when both match
+/// is the library's choice; whatever it is, an update through an id must be visible through the same id, change
+/// exactly the requested indices there, and leave every other service alone.
+fn alias_scenario(core: &CoreDocument, sid: &str, next_seq: &mut u32) {
+  let (did, frag) = sid.split_once('#').unwrap();
+  let alias = format!("{did}/archive#{frag}");
+  let mut prefilled = RevocationBitmap::new();
+  let base = 1000 + ctx::choose(1000) as u32;
+  for i in 0..8 {
+    prefilled.revoke(base + i);
+  }
+  let Ok(alias_svc) = prefilled.to_service(DIDUrl::parse(&alias).unwrap()) else { return };
+  let mut v = serde_json::to_value(core).unwrap();
+  let Some(arr) = v.get_mut("service").and_then(|s| s.as_array_mut()) else { return };
+  let at = if ctx::choose(4) == 0 { arr.len() } else { 0 };
+  arr.insert(at, serde_json::to_value(&alias_svc).unwrap());
+  let Ok(mut doc) = CoreDocument::from_json_value(v) else { return };
+  ctx::stat("probe.alias_service_same_did_and_fragment");
+  ctx::sched("alias", at as u64);
+  for step in 0..1 + ctx::choose(3) {
+    let query: String = match ctx::choose(3) {
+      0 => alias.clone(),
+      1 => sid.to_owned(),
+      _ => frag.to_owned(),
+    };
+    let unrevoke = ctx::choose(3) == 0;
+    let mut batch: Vec<u32> = Vec::new();
+    for _ in 0..1 + ctx::choose(4) {
+      batch.push(match ctx::choose(3) {
+        0 => base + ctx::choose(10) as u32,
+        1 => {
+          *next_seq += 1;
+          *next_seq
+        }
+        _ => ctx::choose(40) as u32,
+      });
+    }
+    let before_all = bitmaps_by_exact_id(&doc);
+    let Ok(before) = doc.resolve_revocation_bitmap(query.as_str().into()) else { return };
+    let r = if unrevoke {
+      doc.unrevoke_credentials(query.as_str(), &batch)
+    } else {
+      doc.revoke_credentials(query.as_str(), &batch)
+    };
+    let op = if unrevoke { "unrevoke" } else { "revoke" };
+    ctx::trace(format!("alias step {step}: {op}_credentials({query}, {batch:?}) -> {}", if r.is_ok() { "Ok" } else { "Err" }));
+    if r.is_err() {
+      ctx::violation("C06", "C06.endpoint_round_trip", format!("alias/{op}/update-fails"), format!("{op}_credentials({query}) failed"));
+      return;
+    }
+    // (a) visible through the same id, exactly the requested indices
+    let after = match doc.resolve_revocation_bitmap(query.as_str().into()) {
+      Ok(b) => b,
+      Err(e) => {
+        ctx::violation("C06", "C06.endpoint_round_trip", "alias/does-not-decode", format!("bitmap of {query} no longer decodes: {e}"));
+        return;
+      }
+    };
+    let mut probe: BTreeSet<u32> = batch.iter().copied().collect();
+    probe.extend((0..12).map(|i| base + i));
+    probe.extend(0..40u32);
+    probe.extend((*next_seq).saturating_sub(6)..*next_seq + 2);
+    for q in &probe {
+      let want = if batch.contains(q) { !unrevoke } else { before.is_revoked(*q) };
+      if after.is_revoked(*q) != want {
+        ctx::violation(
+          "C06",
+          "C06.exact_membership",
+          format!("alias/{op}/{}", if batch.contains(q) { "requested-index-unchanged-through-same-id" } else { "other-index-changed" }),
+          format!("after {op}_credentials({query}, {batch:?}) index {q} is {} in the bitmap the same id resolves to", if want { "not a member" } else { "a member" }),
+        );
+        return;
+      }
+    }
+    // (b) at most one service changed, one whose DID and fragment the id names, and only in the requested indices
+    let after_all = bitmaps_by_exact_id(&doc);
+    let mut changed = 0;
+    for ((id, b), (_, a)) in before_all.iter().zip(after_all.iter()) {
+      let (Some(b), Some(a)) = (b, a) else { continue };
+      let differs: Vec<u32> = probe.iter().copied().filter(|q| a.is_revoked(*q) != b.is_revoked(*q)).collect();
+      if differs.is_empty() && a.len() == b.len() {
+        continue;
+      }
+      changed += 1;
+      let candidate = id == &alias || id == sid;
+      if !candidate || differs.iter().any(|q| !batch.contains(q)) || changed > 1 {
+        ctx::violation(
+          "C06",
+          "C06.exact_membership",
+          format!("alias/{op}/unrelated-service-or-index-changed"),
+          format!("{op}_credentials({query}, {batch:?}) changed indices {differs:?} of service {id}"),
+        );
+        return;
+      }
+    }
   }
 }
 
